@@ -304,7 +304,7 @@ func (c *tcase) mkLHS() {
 
 func main() {
 	r := hlib.Start()
-	r.Rule = "case = (KV method, attempts, script of per-call results ok/retryable/non-retryable with error kinds, optional ctx cancellation point); exhaustive over {ok,R,N}^len, len<=attempts+1, attempts 1..3 (quick) / 1..4 (thorough), all 11 methods; then random scripts with attempts 0..6, raw sentinel errors, cancellation before/during call c; non-trivial = at least one retryable error in the script"
+	r.Rule = "case = (KV method, attempts, script of per-call results ok/retryable/non-retryable with error kinds, optional ctx cancellation point); exhaustive over {ok,R,N}^len, len<=attempts+1, attempts 1..3 (quick) / 1..4 (thorough), all 11 methods; then random scripts with attempts 0..6, raw sentinel errors, cancellation before/during call c; then every script over {ok,R,N}^len with the context ending during call c for every c<=min(len,attempts), attempts 1..2 (quick) / 1..3 (thorough), all 11 methods; non-trivial = at least one retryable error in the script"
 	rng := hlib.NewRng(r.Seed)
 	var cases []*tcase
 	tokFor := func(m method, kind int) string {
@@ -406,6 +406,39 @@ func main() {
 				}
 			}
 			cases = append(cases, c)
+		}
+		// the caller's context ends WHILE call c is in flight, for every script over {ok,R,N}^len and every
+		// c <= len: the result obtained from that call (success / non-retryable / last error) is what the
+		// caller must get; only a retry that is still due may be replaced by the context's cause.
+		// (generated after the random cases so that their RNG stream is unchanged)
+		maxC := 2
+		if r.Thorough() {
+			maxC = 3
+		}
+		for a := 1; a <= maxC; a++ {
+			for ln := 1; ln <= a+1; ln++ {
+				total := 1
+				for i := 0; i < ln; i++ {
+					total *= 3
+				}
+				for code := 0; code < total; code++ {
+					for ca := 1; ca <= ln && ca <= a; ca++ {
+						for _, m := range methods {
+							c := &tcase{m: m, attempts: uint(a), cancelAt: ca}
+							x := code
+							for i := 0; i < ln; i++ {
+								t := tokFor(m, x%3)
+								if t == "N4" { // scripted context.Canceled would be mistaken for the cause
+									t = "N1"
+								}
+								c.script = append(c.script, t)
+								x /= 3
+							}
+							cases = append(cases, c)
+						}
+					}
+				}
+			}
 		}
 	}
 	// run in parallel (retry-go sleeps up to 100 ms of jitter per retry), emit in order
